@@ -294,8 +294,8 @@ func main() {
 	}
 	// ---- bondgo ----
 	goProgs := map[string]string{
-		"loop": "package main\n\nimport \"bondgo\"\n\nfunc main() {\n\tvar in0 bondgo.Input\n\tvar out0 bondgo.Output\n\tvar reg_a uint8\n\tvar reg_b uint8\n\tin0 = bondgo.Make(bondgo.Input, 3)\n\tout0 = bondgo.Make(bondgo.Output, 5)\n\treg_b = 2\n\tfor {\n\t\treg_a = bondgo.IORead(in0)\n\t\treg_a = reg_a + reg_b\n\t\tbondgo.IOWrite(out0, reg_a)\n\t}\n}\n",
-		"vars": "package main\n\nimport \"bondgo\"\n\nfunc main() {\n\tvar out0 bondgo.Output\n\tvar a uint8\n\tvar b uint8\n\tvar reg_c uint8\n\tout0 = bondgo.Make(bondgo.Output, 1)\n\ta = 3\n\tb = 4\n\treg_c = a + b\n\treg_c = reg_c * a\n\tbondgo.IOWrite(out0, reg_c)\n}\n",
+		"loop":  "package main\n\nimport \"bondgo\"\n\nfunc main() {\n\tvar in0 bondgo.Input\n\tvar out0 bondgo.Output\n\tvar reg_a uint8\n\tvar reg_b uint8\n\tin0 = bondgo.Make(bondgo.Input, 3)\n\tout0 = bondgo.Make(bondgo.Output, 5)\n\treg_b = 2\n\tfor {\n\t\treg_a = bondgo.IORead(in0)\n\t\treg_a = reg_a + reg_b\n\t\tbondgo.IOWrite(out0, reg_a)\n\t}\n}\n",
+		"vars":  "package main\n\nimport \"bondgo\"\n\nfunc main() {\n\tvar out0 bondgo.Output\n\tvar a uint8\n\tvar b uint8\n\tvar reg_c uint8\n\tout0 = bondgo.Make(bondgo.Output, 1)\n\ta = 3\n\tb = 4\n\treg_c = a + b\n\treg_c = reg_c * a\n\tbondgo.IOWrite(out0, reg_c)\n}\n",
 		"chans": "package main\n\nimport \"bondgo\"\n\nfunc main() {\n\tvar out0 bondgo.Output\n\tvar reg_a uint8\n\tout0 = bondgo.Make(bondgo.Output, 1)\n\treg_a = 3\n\tbondgo.IOWrite(out0, reg_a)\n\tvar ch0 chan uint8\n\tvar ch1 chan uint8\n\tvar ch2 chan uint8\n}\n",
 	}
 	for name, src := range goProgs {
